@@ -18,7 +18,8 @@ TRUSTED = [
     "deterministic scheduler harness/sched_threads.py: replaces threading/queue/time inside the nodes modules of the harness process by cooperative "
     "look-alikes (linearizable primitives, every primitive a yield point); the library code paths run unmodified in real Python threads",
     "instrumented leaf source (state = position) with a yield point inside next(); map function x -> x+add raising on listed values",
-    "attribute reads without a primitive (sem._value, thread.is_alive(), store queue under its lock) are atomic (GIL)",
+    "attribute reads without a primitive (sem._value, thread.is_alive(), store queue under its lock) are atomic (GIL); in the lockstep cases they are evaluated "
+    "with the primitive before them (as the model does), in the oracle-only 'alive_yield' cases Thread.is_alive() is a yield point of its own",
 ]
 
 
@@ -194,6 +195,8 @@ def step_enc(tid, lab, mode, moves, dig):
 def run(c):
     """-> (raw run_case result, observation in the vocabulary of ConcObs.conc_obs)"""
     r = ci.run_case(c)
+    if c.get("alive_yield"):
+        return r, None          # oracle-only case: Thread.is_alive() was a yield point, the trace is not in the model's alphabet
     steps = [{"__olz": step_enc(*s)} for s in r["steps"]]
     live = sorted(set(r["live"]), key=tid_key)
     obs = [r["obs"], steps, bool(r["overlap"]), {"__olz": [tid_code(t) for t in live]}]
@@ -236,16 +239,21 @@ def run_impl_with(c, oracle):
     out = dict(obs=obs, trace=[[s[0], s[2]] for s in r["steps"]],
                summary=dict(status=r["status"], nsteps=r["nsteps"], outcomes=r["obs"], overlap=r["overlap"][:2], max_ahead=r["max_ahead"],
                             live=r["live"], join_timeouts=r["join_timeouts"], error=r["error"], drained=r.get("drained")))
+    if obs is None:
+        del out["obs"], out["trace"]
     if r["status"] == "deadlock":
         out["hang"] = True
         out["hang_kind"] = "no thread has an enabled step while the consumer is inside an operation (deadlock under the scheduler)"
-        del out["obs"]
+        out.pop("obs", None)
     elif r["status"] == "steps":
         out["hang"] = True
         out["hang_kind"] = "step budget exhausted"
-        del out["obs"]
+        out.pop("obs", None)
     else:
         out["oracle"] = oracle(c, r, ref_fails)
+        if obs is None and r.get("error"):
+            # oracle-only case: an exception that escaped the consumer script (every expected one is caught there) is a failure in itself
+            out["oracle"] = f"with Thread.is_alive() as a yield point the consumer script died with {r['error'][:200]} after outcomes {r['obs'][-4:]}"
     script = c["script"]
     out["nontrivial"] = len(c["xs"]) >= 2 and r["nsteps"] >= 30
     out["key"] = [c["kind"], c["xs"], c.get("pf"), c.get("nw"), c.get("mc"), c.get("in_order"), c["sf"], c.get("src_err"), c.get("bad"),
